@@ -261,6 +261,9 @@ func (r *Run) distinct() int64 {
 func (r *Run) Finish() int {
 	evals := atomic.LoadInt64(&r.evals)
 	distinct := r.distinct()
+	if len(r.samples) == 0 {
+		r.Inconclusive("no case was written out as a sample")
+	}
 	if evals < r.MinEvals {
 		r.Inconclusive(fmt.Sprintf("only %d events observed, fewer than the minimum %d", evals, r.MinEvals))
 	}
